@@ -99,7 +99,7 @@ INVARIANT Emit
 CHECK_DEADLOCK FALSE
 """
 PAIRS_QUICK = ["M1", "M5", "N1", "N2", "L1", "T1"]
-PAIRS_THOROUGH = ["M1", "M2", "M3", "M4", "M5", "N1", "N2", "L1", "L2", "L3", "L4", "T1", "T2", "T3", "Z1", "Z2", "Z3", "Z4", "Z5", "A", "AAAA", "MX", "TXT", "OPT", "TSIG", "NSEC", "NSEC3", "SVCB", "HTTPS", "APL", "LOC", "SOA", "RRSIG", "NAPTR", "HIP", "IPSECKEY", "CAA", "URI", "CERT", "TKEY", "DS", "AMTRELAY", "CSYNC", "GPOS", "ISDN", "NSAP", "CH.A", "8.1", "8.2", "15.1", "15.2", "10.2", "18.1"]
+PAIRS_THOROUGH = ["M1", "M2", "M3", "M4", "M5", "M6", "N1", "N2", "L1", "L2", "L3", "L4", "T1", "T2", "T3", "Z1", "Z2", "Z3", "Z4", "Z5", "A", "AAAA", "MX", "TXT", "OPT", "TSIG", "NSEC", "NSEC3", "SVCB", "HTTPS", "APL", "LOC", "SOA", "RRSIG", "NAPTR", "HIP", "IPSECKEY", "CAA", "URI", "CERT", "TKEY", "DS", "AMTRELAY", "CSYNC", "GPOS", "ISDN", "NSAP", "CH.A", "8.1", "8.2", "15.1", "15.2", "10.2", "18.1"]
 
 
 def tset(xs):
